@@ -1,23 +1,25 @@
 #!/bin/bash
-# usage: tools/seedtest.sh <seed-name> <worktree> <check-id> [more check ids]
-# Confirms a seeded change (suite passes with it, demo passes without / fails with it), stores it under
-# /verif/seeded/<seed-name>/ and runs the given checks against /repo with the patch applied (then undoes it).
-name=$1; wt=$2; shift 2
+# usage: tools/seedtest.sh <seed-name> <dir-with-patch.diff-demo-NOTES> <check-id> [more check ids]
+# Confirms a seeded change and runs the given checks against it WITHOUT touching /repo: the patch is applied to a
+# scratch worktree of /repo's HEAD and the checks import graphql from there (VERIF_REPO_SRC); evidence and replay
+# files of these runs go to a scratch directory (VERIF_OUT).
+name=$1; src=$2; shift 2
 out=/verif/seeded/$name; mkdir -p $out
-cp $wt/patch.diff $out/patch.diff; cp $wt/demo_*.py $out/ 2>/dev/null; cp $wt/NOTES.md $out/NOTES.md 2>/dev/null
+[ "$src" != "$out" ] && { cp $src/patch.diff $out/patch.diff; cp $src/demo_*.py $out/ 2>/dev/null; cp $src/NOTES.md $out/NOTES.md 2>/dev/null; }
 demo=$(ls $out/demo_*.py | head -1)
-cd /repo || exit 2
-git diff --quiet || { echo "/repo not clean"; exit 2; }
-echo "== demo on unchanged /repo"; PYTHONPATH=/repo/src timeout 300 /venv/bin/python $demo >/dev/null 2>&1; d0=$?; echo "exit $d0"
-git apply $out/patch.diff || { echo "PATCH DOES NOT APPLY"; exit 2; }
-echo "== demo with patch"; PYTHONPATH=/repo/src timeout 300 /venv/bin/python $demo >/dev/null 2>&1; d1=$?; echo "exit $d1"
-echo "== repo suite with patch"; timeout 900 /venv/bin/python -m pytest -q -p no:cacheprovider --timeout=60 -q 2>&1 | tail -1 | tee $out/suite.txt
+wt=/tmp/seedwt_$name; scratch=/tmp/seedout_$name
+git -C /repo worktree remove --force $wt 2>/dev/null; rm -rf $scratch; mkdir -p $scratch
+git -C /repo worktree add -q $wt HEAD || exit 2
+echo "== demo on unchanged sources"; PYTHONPATH=$wt/src timeout 300 /venv/bin/python $demo >/dev/null 2>&1; d0=$?; echo "exit $d0"
+git -C $wt apply $out/patch.diff || { echo "PATCH DOES NOT APPLY"; git -C /repo worktree remove --force $wt; exit 2; }
+echo "== demo with patch"; PYTHONPATH=$wt/src timeout 300 /venv/bin/python $demo >/dev/null 2>&1; d1=$?; echo "exit $d1"
+echo "== repository suite with patch"; (cd $wt && PYTHONPATH=$wt/src timeout 900 /venv/bin/python -m pytest -q -p no:cacheprovider --timeout=60 -q 2>&1 | tail -1)
 res=""
 for c in "$@"; do
   echo "== check $c with patch"
-  (cd /verif && ./check $c --tier quick > $out/check_$c.out 2>/dev/null); rc=$?
-  grep "VIOLATION\|KNOWN-FINDING\|MODEL-DRIFT" $out/check_$c.out | cut -c1-260 | head -8
+  (cd /verif && VERIF_REPO_SRC=$wt/src VERIF_OUT=$scratch ./check $c --tier quick > $scratch/check_$c.out 2>/dev/null); rc=$?
+  grep "VIOLATION\|KNOWN-FINDING\|MODEL-DRIFT" $scratch/check_$c.out | cut -c1-260 | head -8
   echo "exit $rc"; res="$res $c=$rc"
 done
-git -C /repo checkout -- . ; git -C /repo status --short | head -2
+git -C /repo worktree remove --force $wt; rm -rf $scratch
 echo "SUMMARY $name demo_without=$d0 demo_with=$d1 checks:$res"
